@@ -43,4 +43,19 @@ VARIANTS = [
     V("C06", "False default lost", MH, '            case "False":\n                return False\n', '            case "False":\n                return None\n', "C06.LITERAL-VALUE"),
     V("C06", "unparse round trip", GEN, "<<unparse>>", "", None),
     V("C06", "benign: kind test as equality chain", MH, "elif arg.kind in (ArgKind.ARG_NAMED, ArgKind.ARG_NAMED_OPT):", "elif arg.kind == ArgKind.ARG_NAMED or arg.kind == ArgKind.ARG_NAMED_OPT:", None),
+    # ------------------------------------------------------------------ C20
+    V("C20", "flush before rendering parameters", GEN, "        # Parameters\n        func_params = self._create_parameter_string(\n            parameters=function.parameters,",
+      "        todo_first = self._create_todo_msg(indentations)\n        func_params = self._create_parameter_string(\n            parameters=function.parameters,", "C20.FLUSH"),
+    V("C20", "early flush replaces final flush", GEN, "            f\"{self._create_todo_msg(indentations)}\"\n            f\"{docstring}\"\n            f\"{indentations}@Pure\\n\"", "            f\"{docstring}\"\n            f\"{indentations}@Pure\\n\"", "C20.FLUSH"),
+    V("C20", "variadic for NAME_ONLY", GEN, "if assigned_by in {ParameterAssignment.POSITIONAL_VARARG, ParameterAssignment.NAMED_VARARG}:", "if assigned_by in {ParameterAssignment.POSITIONAL_VARARG, ParameterAssignment.NAMED_VARARG, ParameterAssignment.NAME_ONLY}:", "C20.GUARDS"),
+    V("C20", "marker without message", GEN, "            key_data = self._create_type_string(type_data[\"key_type\"])", "            self._current_todo_msgs.add(\"no dict support\")\n            key_data = self._create_type_string(type_data[\"key_type\"])", "C20.MARKER-TABLE"),
+    V("C20", "no reset at module start", GEN, "        self._current_todo_msgs: set[str] = set()\n        return self._create_module_string(module)", "        return self._create_module_string(module)", "C20.RESET"),
+    V("C20", "flush does not clear", GEN, "        # Empty the message list\n        self._current_todo_msgs = set()\n", "", "C20.FLUSH"),
+    V("C20", "OPT_POS_ONLY by default value", GEN, "ParameterAssignment.POSITION_ONLY and parameter.is_optional", "ParameterAssignment.POSITION_ONLY and parameter.default_value is not None", "C20.GUARDS"),
+    V("C20", "class todo flushed after attributes", GEN, "        class_signature_todo = self._create_todo_msg(class_indentation)\n\n        # Attributes\n        class_text, added_class_attributes = self._create_class_attribute_string(class_.attributes, inner_indentations)\n",
+      "        # Attributes\n        class_text, added_class_attributes = self._create_class_attribute_string(class_.attributes, inner_indentations)\n        class_signature_todo = self._create_todo_msg(class_indentation)\n", "C20.FLUSH"),
+    V("C20", "set marker only with args", GEN, "            if name == \"Set\":\n                self._current_todo_msgs.add(\"no set support\")", "            if name == \"Set\" and types:\n                self._current_todo_msgs.add(\"no set support\")", "C20.GUARDS"),
+    V("C20", "unparse round trip", GEN, "<<unparse>>", "", None),
+    V("C20", "benign: guard as equality chain", GEN, "if assigned_by in {ParameterAssignment.POSITIONAL_VARARG, ParameterAssignment.NAMED_VARARG}:", "if assigned_by == ParameterAssignment.POSITIONAL_VARARG or assigned_by == ParameterAssignment.NAMED_VARARG:", None),
+    V("C20", "benign: extra unused table key", GEN, '                "unknown": "Unknown type - Type could not be parsed.",', '                "unknown": "Unknown type - Type could not be parsed.",\n                "spare": "Unused.",', None),
 ]
